@@ -14,6 +14,7 @@ TOP = r'^memchr$'
 EQ = r'^arch::all$'
 RK = r'^arch::all::rabinkarp$'
 TW = r'^arch::all::twoway$'
+SO = r'^arch::all::shiftor$'
 APP = r'^arch::all::packedpair(::default_rank)?$'
 GPP = r'^arch::generic::packedpair$'
 XPP = r'^arch::(x86_64::(sse2|avx2)|aarch64::neon|wasm32::simd128)::packedpair$'
@@ -35,7 +36,7 @@ PANIC = ('arithmetic', 'bounds', 'assertion', 'recommends', 'precondition', 'dec
 
 MAIN_MODS_MEMCHR = ['ext', 'vector', 'vbase', 'arch::generic::memchr', 'arch::x86_64::sse2::memchr', 'arch::x86_64::avx2::memchr',
                     'arch::all::memchr', 'arch::x86_64::memchr', 'memchr']
-MAIN_MODS_SUB = ['ext', 'vector', 'vbase', 'arch::all', 'arch::all::rabinkarp', 'arch::all::twoway', 'arch::all::packedpair',
+MAIN_MODS_SUB = ['ext', 'vector', 'vbase', 'arch::all', 'arch::all::rabinkarp', 'arch::all::twoway', 'arch::all::shiftor', 'x_twc', 'x_so', 'arch::all::packedpair',
                  'arch::generic::packedpair', 'arch::x86_64::sse2::packedpair', 'arch::x86_64::avx2::packedpair',
                  'memmem::searcher', 'x_pp', 'x_eqrk', 'x_tw']
 
@@ -60,9 +61,9 @@ SEL_PP_PRE = [(GPP, r'Finder::(new|find_prefilter|find_prefilter_in_chunk|matche
               (XPP, r'Finder::(new|with_pair|with_pair_impl|find_prefilter|find_prefilter_impl|min_haystack_len|pair|is_available)'),
               (APP, r'Finder::(new|with_pair|find_prefilter|pair)'), (APP, r'Pair::(index1|index2)'), (r'^x_pp$', r'.*'),
               (PRE, r'Prefilter::find_simple')]
-SEL_TW_F = [(TW, r'(Finder::.*|Shift::forward|Suffix::forward|SuffixKind::cmp|ApproximateByteSet::.*|TwoWay::.*)'), (TW, LEMMAS),
+SEL_TW_F = [(TW, r'(Finder::.*|Shift::forward|Suffix::forward|SuffixKind::cmp|ApproximateByteSet::.*|TwoWay::.*)'), (TW, LEMMAS), (r'^x_twc$', r'.*'),
             (PRE, r'(Pre|PrefilterState)::.*'), (EQ, r'(is_prefix|is_equal|is_equal_raw)')]
-SEL_TW_R = [(TW, r'(FinderRev::.*|Shift::reverse|Suffix::reverse|SuffixKind::cmp|ApproximateByteSet::.*|TwoWay::.*)'), (TW, LEMMAS),
+SEL_TW_R = [(TW, r'(FinderRev::.*|Shift::reverse|Suffix::reverse|SuffixKind::cmp|ApproximateByteSet::.*|TwoWay::.*)'), (TW, LEMMAS), (r'^x_twc$', r'.*'),
             (EQ, r'(is_suffix|is_equal|is_equal_raw)')]
 SEL_MM_F = [(MM, r'(find|find_iter|Finder::.*|FinderBuilder::.*)'), (COW, r'.*'), (r'^x_memmem$', r'.*'), (PRE, r'.*')]
 SEL_MM_R = [(MM, r'(rfind|rfind_iter|FinderRev::.*|FinderBuilder::build_reverse)'), (COW, r'.*'), (r'^x_memmem$', r'.*'),
@@ -73,29 +74,29 @@ SEL_GLUE_P = [(PRE, r'(prefilter_kind_.*|Prefilter::find_simple)')]
 SEL_SUB_F = SEL_RK_F + SEL_PP_FIND + SEL_PP_PRE + SEL_TW_F + SEL_GLUE_S + SEL_GLUE_P + SEL_C01
 SEL_SUB_R = SEL_RK_R + SEL_TW_R + SEL_C02
 
-A_TW = 'A6 Two-Way completeness (no occurrence skipped) is NOT proved: assumed in the memmem build (stub_twoway), backed only by bounded Kani harnesses (needle<=4/haystack<=7 quick, <=5/<=9 thorough)'
+A_TW = 'Two-Way completeness IS proved (critical-factorisation theorem and maximal-suffix correctness in prelude/x_twc.vrs; constructors establish wf_cf); the bounded Kani Two-Way harnesses remain as an independent cross-check in the thorough tier'
 A_GLUE = 'A6 calling through the fn pointers of the meta searcher (Searcher::find/new, Prefilter::find and its constructors, i.e. the pairing of `call` with the active union field) is represented by an assumed contract; the union-reading glue functions searcher_kind_* / prefilter_kind_* themselves ARE proved; the fn-pointer hop is executed only by the bounded Kani glue harnesses'
 A_DISP = 'A2 unsafe_ifunc! dispatcher: finally calls one of find_avx2/find_sse2/find_fallback (each verified) with the same arguments (rule X6; AtomicPtr/transmute/cpuid not verified)'
 A_LEAF = 'A3 x86 Vector leaf impls are external_body in Verus, closed by loop-free full-domain Kani harnesses (trusting Kani\'s SSE2/AVX2 intrinsic models); the NEON and wasm32 Vector impls are VERIFIED against per-instruction intrinsic specifications in prelude/isa.vrs, which are a trusted ISA model (no Kani cross-check possible on this host)'
-A_CTOR = 'Rabin-Karp constructors, Pair::with_ranker, ApproximateByteSet::new use iterator adapters outside Verus\' language: contract assumed (external_body), backed by bounded Kani harnesses'
+A_CTOR = 'iterator-adapter loops (Rabin-Karp constructors, Pair::with_ranker, ApproximateByteSet::new, Shift-Or) are verified after the mechanical desugaring rule X14 (std slice-iterator adaptor semantics: iter/rev/copied/skip/take/enumerate are trusted as encoded there); bounded Kani harnesses cross-check them in the thorough tier'
 
 K_LEAF = [dict(name='leaf_sse2'), dict(name='leaf_avx2'), dict(name='leaf_sse2_aligned_load'), dict(name='leaf_avx2_aligned_load')]
 K_POP = [dict(name='leaf_count_ones_spec')]
-K_TW_F = [dict(name='bounded_twoway_fwd_n4_h7', bounded=True, bound='needle<=4, haystack<=7, all byte values', timeout=1500),
+K_TW_F = [dict(name='bounded_twoway_fwd_n4_h7', bounded=True, bound='needle<=4, haystack<=7, all byte values', tier='thorough', timeout=1500),
           dict(name='bounded_twoway_fwd_n5_h9', bounded=True, bound='needle<=5, haystack<=9', tier='thorough', timeout=14400)]
-K_TW_R = [dict(name='bounded_twoway_rev_n3_h6', bounded=True, bound='needle<=3, haystack<=6, all byte values', timeout=1500),
+K_TW_R = [dict(name='bounded_twoway_rev_n3_h6', bounded=True, bound='needle<=3, haystack<=6, all byte values', tier='thorough', timeout=1500),
           dict(name='bounded_twoway_rev_n4_h7', bounded=True, bound='needle<=4, haystack<=7', tier='thorough', timeout=7200),
           dict(name='bounded_twoway_rev_n5_h9', bounded=True, bound='needle<=5, haystack<=9', tier='thorough', timeout=14400)]
-K_RK_F = [dict(name='bounded_rabinkarp_fwd_n4_h8', bounded=True, bound='needle<=4, haystack<=8', timeout=1500)]
-K_RK_R = [dict(name='bounded_rabinkarp_rev_n4_h8', bounded=True, bound='needle<=4, haystack<=8', timeout=1500)]
-K_SO = [dict(name='bounded_shiftor_n4_h8', bounded=True, bound='needle<=4, haystack<=8', timeout=1500),
-        dict(name='bounded_shiftor_unsupported_len', bounded=True, bound='needle<=17', timeout=900)]
-K_PAIR = [dict(name='bounded_pair_with_ranker_n24', bounded=True, bound='needle<=24, fully symbolic 256-entry ranker', timeout=1500),
+K_RK_F = [dict(name='bounded_rabinkarp_fwd_n4_h8', bounded=True, bound='needle<=4, haystack<=8', tier='thorough', timeout=1500)]
+K_RK_R = [dict(name='bounded_rabinkarp_rev_n4_h8', bounded=True, bound='needle<=4, haystack<=8', tier='thorough', timeout=1500)]
+K_SO = [dict(name='bounded_shiftor_n4_h8', bounded=True, bound='needle<=4, haystack<=8', tier='thorough', timeout=1500),
+        dict(name='bounded_shiftor_unsupported_len', bounded=True, bound='needle<=17', tier='thorough', timeout=900)]
+K_PAIR = [dict(name='bounded_pair_with_ranker_n24', bounded=True, bound='needle<=24, fully symbolic 256-entry ranker', tier='thorough', timeout=1500),
           dict(name='bounded_pair_default_ranker_long_tail', bounded=True, bound='needle length 254..=260 (253 fixed bytes + 6 symbolic), default ranker', tier='thorough', timeout=3600),
           dict(name='bounded_pair_with_ranker_long_tail', bounded=True, bound='needle length 250..=260 (252 fixed + 8 symbolic bytes), fully symbolic ranker', tier='thorough', timeout=7200)]
 K_GLUE = [dict(name='bounded_glue_fwd_sse2_n2_h4', bounded=True, bound='needle=2 bytes, haystack<=4, AVX2 stubbed unavailable (fn-pointer pairing of Searcher::new/find on the SSE2 strategy)', tier='thorough', timeout=7200),
           dict(name='bounded_glue_sse2_n2_h19', bounded=True, bound='needle<=2, haystack<=19, symbolic ranker and PrefilterConfig, AVX2 stubbed off', tier='thorough', timeout=14400)]
-K_GLUE_R = [dict(name='bounded_glue_rev_n3_h6', bounded=True, bound='needle<=3, haystack<=6', timeout=1500)]
+K_GLUE_R = [dict(name='bounded_glue_rev_n3_h6', bounded=True, bound='needle<=3, haystack<=6', tier='thorough', timeout=1500)]
 K_TWPRE = [dict(name='bounded_twoway_prefilter_fwd_n3_h7', bounded=True, bound='needle 2..=3, haystack<=7, Two-Way with the portable prefilter', tier='thorough', timeout=14400)]
 
 def others(select, mods=None):
@@ -118,10 +119,11 @@ PROPS = {
                             'proves the blocks (Rabin-Karp search = leftmost, packed-pair find = leftmost, Two-Way soundness/no-panic); Two-Way '
                             'completeness, constructors with iterator adapters and the union/fn-pointer glue are BOUNDED Kani harnesses',
                 assumptions=[A_TW, A_GLUE, A_CTOR, A_LEAF]),
-    'C04': dict(explore=True, level='other', kinds=FUNCTIONAL, kani=K_TW_R + K_RK_R + K_GLUE_R,
+    'C04': dict(explore=True, level='proof', kinds=FUNCTIONAL, kani=K_TW_R + K_RK_R + K_GLUE_R,
                 builds=[dict(build='memmem', modules=['memmem', 'cow', 'x_memmem'], select=SEL_MM_R),
                         dict(build='main', modules=MAIN_MODS_SUB + MAIN_MODS_MEMCHR, select=SEL_RK_R + SEL_TW_R + SEL_C02)],
-                explanation='hybrid as C03 for the reverse direction; SearcherRev (a plain enum) is proved in Verus against the block contracts',
+                explanation='memmem::rfind, FinderRev::{new,rfind} and SearcherRev::{new,rfind} (a plain enum, no fn pointer) are proved against '
+                            'the REAL reverse engines (Rabin-Karp reverse, Two-Way reverse incl. completeness, memrchr), all proved in this run',
                 assumptions=[A_TW, A_CTOR]),
     'C05': dict(level='proof', kinds=('precondition', 'postcondition', 'invariant'), mem_only=True, kani=K_LEAF,
                 builds=[dict(build='main', modules=MAIN_MODS_MEMCHR + MAIN_MODS_SUB, select=SEL_C05),
@@ -164,10 +166,10 @@ PROPS = {
     'C11': dict(level='proof', kinds=FUNCTIONAL, kani=K_LEAF,
                 builds=[dict(build='main', modules=MAIN_MODS_SUB + MAIN_MODS_MEMCHR, select=SEL_PP_PRE + SEL_GLUE_P + SEL_C01)] + others(SEL_PP_PRE + SEL_C01)[:2],
                 assumptions=[A_LEAF, 'the fn-pointer hop Prefilter::find -> prefilter_kind_* is glue (bounded Kani only)']),
-    'C12': dict(explore=True, level='other', kinds=FUNCTIONAL, kani=K_TW_F + K_TW_R + K_RK_F + K_RK_R + K_SO,
-                builds=[dict(build='main', modules=MAIN_MODS_SUB, select=SEL_RK_F + SEL_RK_R + SEL_PP_FIND + SEL_TW_F + SEL_TW_R)],
-                explanation='per block: packed-pair find and Rabin-Karp search are proved equal to leftmost/rightmost; Two-Way soundness, '
-                            'no-panic, termination proved, completeness BOUNDED; Shift-Or BOUNDED; constructors BOUNDED',
+    'C12': dict(explore=True, level='proof', kinds=FUNCTIONAL, kani=K_TW_F + K_TW_R + K_RK_F + K_RK_R + K_SO,
+                builds=[dict(build='main', modules=MAIN_MODS_SUB, select=SEL_RK_F + SEL_RK_R + SEL_PP_FIND + SEL_TW_F + SEL_TW_R + [(SO, r'.*'), (r'^x_so$', r'.*')])],
+                explanation='every block is proved exact on its documented domain: packed-pair find, Rabin-Karp (search and constructors), '
+                            'Two-Way forward/reverse (incl. completeness via the critical-factorisation theorem), Shift-Or (bit-parallel automaton)',
                 assumptions=[A_TW, A_CTOR, A_LEAF]),
     'C14': dict(level='proof', kinds=PANIC, non_mem=True, kani=K_PAIR,
                 builds=[dict(build='main', modules=MAIN_MODS_MEMCHR + MAIN_MODS_SUB, select=[(r'.*', r'.*')]),
@@ -186,13 +188,12 @@ PROPS = {
     'C18': dict(level='proof', kinds=FUNCTIONAL + ('arithmetic',), kani=[],
                 builds=[dict(build='main', modules=['ext', 'vbase', 'arch::all'], select=[(EQ, r'.*'), (r'^ext$', r'.*'), (r'^vbase$', r'.*')])],
                 assumptions=[]),
-    'C19': dict(explore=True, level='other', kinds=FUNCTIONAL + ('assertion',), kani=K_PAIR,
+    'C19': dict(explore=True, level='proof', kinds=FUNCTIONAL + ('assertion',), kani=K_PAIR,
                 builds=[dict(build='main', modules=MAIN_MODS_SUB, select=[(APP, r'(Pair::.*|Finder::(new|with_pair|pair))'),
                                                                           (GPP, r'Finder::(new|pair|min_haystack_len)'),
                                                                           (XPP, r'Finder::(new|with_pair|with_pair_impl|pair|min_haystack_len)')])],
-                explanation='Pair::with_indices, accessors and the finders\' new/pair/min_haystack_len are proved; Pair::new is proved against '
-                            'the ASSUMED contract of Pair::with_ranker (iterator adapters), which a BOUNDED Kani harness checks with a fully '
-                            'symbolic ranker for needles up to 24 bytes',
+                explanation='Pair::with_ranker (for every ranker: generic R), Pair::new, with_indices, accessors and the finders\' '
+                            'new/with_pair/pair/min_haystack_len are proved',
                 assumptions=[A_CTOR]),
 }
 
